@@ -204,6 +204,11 @@ def wrap(form, lines, ext, i):
     raise ValueError(form)
 
 
+# languages with interpolation: (line that opens a string literal and an interpolation holding an array, closing line)
+TPL = {"js": ("const q = `SELECT ${[", "]}`;"), "jsx": ("const q = `SELECT ${[", "]}`;"), "ts": ("const q = `SELECT ${[", "]}`;"),
+       "tsx": ("const q = `SELECT ${[", "]}`;"), "rb": ('q = "SELECT #{[', ']}"'), "kt": ('val q = """SELECT ${listOf(', ')}"""'),
+       "kts": ('val q = """SELECT ${listOf(', ')}"""')}
+
 SINGLE_LINE_FORMS = {"line", "rsdoc", "rsinner", "hash", "sqlline", "trail", "htrail", "sqltrail", "mdparen", "mdquote"}
 
 
@@ -226,13 +231,21 @@ def render(items, ext, variant=0, crlf=False, multibyte=False, tag_attrs=None, b
     md = ext in ("md", "markdown")
     # (Markdown used to pair link-reference comments and HTML comments on separate stacks -- finding M1,
     # repaired in /repo -- so Markdown files now mix all four comment forms freely.)
+    tpl = container == "tpl"       # the whole file inside the interpolation of a template / interpolated string literal
+    if tpl:
+        container = None
+        fl = [f for f in fl if f in ("line", "block", "mblock", "doc", "hash")]
     if container:
         # the extent of a [//]: node inside a container is the grammar's business (gray); so is an HTML block that
         # starts with a tag line inside a container: tree-sitter-md yields an ERROR node instead of html_block when
         # more lines of the container follow it (quirk G3, DESIGN 7.2), so the <div>-wrapped form is used at top level only
         fl = ["xml", "mxml"]
     for n, it in enumerate(items, 1):
-        if it["k"] == "code":
+        if it["k"] == "code" and tpl:
+            out_lines.append("%d," % n)
+        elif it["k"] == "str" and tpl:
+            out_lines.append('"<block name=d%d> </block>",' % n)
+        elif it["k"] == "code":
             out_lines.append(code_line(ext, n))
             if md or ext in ("html", "htm", "xml"):
                 out_lines.append("")
@@ -323,6 +336,15 @@ def render(items, ext, variant=0, crlf=False, multibyte=False, tag_attrs=None, b
         for s_ in starts:
             s_["col_chars"] += 2
         spans = {n_: (l0, c0 + 2, l1, c1 + 2, inc) for n_, (l0, c0, l1, c1, inc) in spans.items()}
+    if tpl:
+        # comments inside ${ } / #{ } are comments like any other; every position moves one line down and two columns right
+        hdr = len(header(ext))
+        opener, closer = TPL[ext]
+        out_lines = out_lines[:hdr] + [opener] + ["  " + l for l in out_lines[hdr:]] + [closer]
+        for s_ in starts:
+            s_["line_idx"] += 1
+            s_["col_chars"] += 2
+        spans = {n_: (l0 + 1, c0 + 2, l1 + 1, c1 + 2, inc) for n_, (l0, c0, l1, c1, inc) in spans.items()}
     nl = "\r\n" if crlf else "\n"
     if no_eol:
         # the file ends with the last character of its last line: no line terminator, no trailing blank lines
